@@ -434,6 +434,7 @@ func TestVerifE5MicroCorr(t *testing.T) {
 	cases := vfEnvInt("VERIF_N", 300)
 	steps := vfEnvInt("VERIF_STEPS", 40)
 	fixed := vfEnvInt("VERIF_FIXED", 0)
+	scanAtomic := vfEnvInt("VERIF_SCANATOMIC", 0)
 	opts := vfE5Opts(t.TempDir())
 	opts.MemQueueSize = 64
 	n, err := New(opts)
@@ -447,7 +448,7 @@ func TestVerifE5MicroCorr(t *testing.T) {
 		ch.initPQ()
 		m := &vfE5Micro{t: t, n: n, ch: ch, objs: map[int]*Message{}, out: out, r: r, nobj: 2 + r.Intn(4), hist: hist}
 		m.install()
-		out.Case(fmt.Sprintf("if new %d", fixed), "ok")
+		out.Case(fmt.Sprintf("if new %d %d", fixed, scanAtomic), "ok")
 		for s := 0; s < steps && !m.dead; s++ {
 			m.stepOnce()
 		}
